@@ -188,8 +188,37 @@ pub fn run(tier: &str) -> Result<Report, String> {
             sem::sweep(&mut rep, &ctx, &all, ck);
         }
     }
+    // bundled models (one child process each, wall limit): necessary-and-sufficient set-level conditions for the two shortcuts
+    {
+        use rayon::prelude::*;
+        let models: Vec<&str> = if tier == "quick" {
+            vec!["pystablemotifs-models/cell_cycle_2016.aeon", "pystablemotifs-models/myeloid.aeon", "cell_division", "pystablemotifs-models/2161_Guard_Cell_Abscisic_Acid_Signaling.aeon", "large-colored-models/set1-tacas/tacas2.aeon"]
+        } else {
+            vec!["pystablemotifs-models/cell_cycle_2016.aeon", "pystablemotifs-models/myeloid.aeon", "cell_division", "pystablemotifs-models/2161_Guard_Cell_Abscisic_Acid_Signaling.aeon", "large-colored-models/set1-tacas/tacas2.aeon", "pystablemotifs-models/EMT.aeon", "pystablemotifs-models/2176_T-LGL_Survival_Network_2008.aeon", "pystablemotifs-models/2171_T_Cell_Receptor_Signaling.aeon", "inference-benchmarks/110_9v/model_parametrized.aeon"]
+        };
+        let limit = if tier == "quick" { 45.0 } else { 900.0 };
+        let results: Vec<(&str, crate::jobs::JobResult)> = models.par_iter().map(|m| (*m, crate::jobs::run(&json!({"kind": "c12big", "model": m}), limit))).collect();
+        let mut big = vec![];
+        for (m, r) in results {
+            match r {
+                crate::jobs::JobResult::Done(v) => {
+                    if let Some(e) = v.get("error") {
+                        return Err(format!("bundled model job {m}: {e}"));
+                    }
+                    rep.evaluations += v["cases"].as_u64().unwrap_or(0);
+                    for p in v["problems"].as_array().cloned().unwrap_or_default() {
+                        rep.violations.push(crate::report::Violation { case: json!({"kind": "c12big", "model": m}), what: format!("on {m}: {}", p.as_str().unwrap_or("")), size: 80 });
+                    }
+                    big.push(json!({"model": m, "variables": v["variables"], "attractor_pairs_log2": v["attractor_pairs_log2"], "cases": v["cases"], "wall_s": v["wall_s"]}));
+                }
+                crate::jobs::JobResult::Timeout => rep.cap(format!("bundled model {m} exceeded {limit}s and was stopped (no verdict)")),
+                crate::jobs::JobResult::Crashed(e) => return Err(format!("bundled model job {m} crashed: {e}")),
+            }
+        }
+        rep.set("bundled_models", json!(big));
+    }
     rep.set("one_hole_contexts", json!(n_contexts));
-    rep.rule = format!("every one-hole context with <= {ctx_nodes} nodes (all unary operators, & | => EU AU, bind/exists/forall with and without domains, jump) x the two shortcut patterns, their pattern-defeating twins and 16 near-miss families (other variable, domain on the binder, extra / fewer / swapped / other operators, other quantifier), on the core networks (and on the multi-colour ones with the graph restricted to every second colour) x 2 label families: shortcut vs twin must be the same set (BDD equality); the pattern occurring twice (inside a domain-restricted context and in any other context, both orders, joined by & / |; context sizes (domain, other) bounded by (3,2) in quick and on 3-variable networks, (4,2) and (3,3) in thorough on networks with <= 2 variables) vs the same with twins, and vs the oracle; and every formula must agree with the explicit-state oracle and stay inside the unit set; distinct_nontrivial = distinct non-trivial verdict tables");
+    rep.rule = format!("every one-hole context with <= {ctx_nodes} nodes (all unary operators, & | => EU AU, bind/exists/forall with and without domains, jump) x the two shortcut patterns, their pattern-defeating twins and 16 near-miss families (other variable, domain on the binder, extra / fewer / swapped / other operators, other quantifier), on the core networks (and on the multi-colour ones with the graph restricted to every second colour) x 2 label families: shortcut vs twin must be the same set (BDD equality); the pattern occurring twice (inside a domain-restricted context and in any other context, both orders, joined by & / |; context sizes (domain, other) bounded by (3,2) in quick and on 3-variable networks, (4,2) and (3,3) in thorough on networks with <= 2 variables) vs the same with twins, and vs the oracle; and every formula must agree with the explicit-state oracle and stay inside the unit set; plus, on bundled models with 9..101 variables (child processes, wall limit; quick: cell_cycle_2016, myeloid, cell_division, guard cell, tacas2), set-level conditions that need neither the oracle nor the generic twin: the result of the attractor formula is closed under successors, reachable from every (state, colour) pair, three deterministic witness pairs lie in a terminal SCC (library forward/backward reachability) and are found by the generic evaluation restricted to the witness (`!{{x}} in %t%: AG EF {{x}}` = {{t}}), a witness outside is not; the steady-state formula equals the pairs where no variable can change; distinct_nontrivial = distinct non-trivial verdict tables");
     Ok(rep)
 }
 
@@ -199,4 +228,97 @@ fn short(g: &Got) -> String {
         Got::Err(e) => format!("Err({e})"),
         Got::Panic(p) => format!("panic({p})"),
     }
+}
+
+/// Child job: the two shortcuts on a bundled model too large for the explicit-state oracle and for the generic
+/// evaluation of the pattern-defeating twin. Oracles that need neither: the attractor set A must be closed under
+/// successors (library `post`), every (state, colour) pair must reach it (library `reach_backward`), witness pairs of A
+/// picked deterministically must lie in a terminal strongly connected component (library forward / backward
+/// reachability from the single pair) and must be found by the generic evaluation restricted to the witness
+/// (`!{x} in %t%: AG EF {x}` = {t}); witness pairs outside A must not. Steady states: `!{x}: AX {x}` must be exactly the
+/// pairs without a successor other than themselves.
+pub fn job(job: &serde_json::Value) -> serde_json::Value {
+    use biodivine_hctl_model_checker::model_checking as mc;
+    use biodivine_lib_param_bn::biodivine_std::traits::Set;
+    use biodivine_lib_param_bn::symbolic_async_graph::reachability::Reachability;
+    use biodivine_lib_param_bn::symbolic_async_graph::GraphColoredVertices;
+    use std::collections::HashMap;
+    let t0 = std::time::Instant::now();
+    let name = job["model"].as_str().unwrap_or("");
+    let big = match crate::bigmodels::load(name, 1) {
+        Ok(b) => b,
+        Err(e) => return json!({"error": e}),
+    };
+    let g = &big.graph;
+    let unit = g.mk_unit_colored_vertices();
+    let mut problems: Vec<String> = vec![];
+    let mut cases = 0u64;
+    let att = match mc::model_check_formula_dirty("!{x}: AG EF {x}", g) {
+        Ok(a) => a,
+        Err(e) => return json!({"error": format!("attractor formula: {e}")}),
+    };
+    // (1) closed under successors
+    cases += 1;
+    if !g.post(&att).is_subset(&att) {
+        problems.push(format!("the result of !{{x}}: AG EF {{x}} is not closed under successors ({} pairs, {} successors outside)", att.approx_cardinality(), g.post(&att).minus(&att).approx_cardinality()));
+    }
+    // (2) every pair reaches it
+    cases += 1;
+    if g.reach_backward(&att) != unit {
+        problems.push("some (state, colour) pair cannot reach the result of !{x}: AG EF {x} (an attractor is missing)".into());
+    }
+    // (3) witnesses inside: terminal SCC + generic evaluation restricted to the witness
+    let mut rest = att.clone();
+    for i in 0..3 {
+        if rest.is_empty() {
+            break;
+        }
+        let t = rest.pick_singleton();
+        cases += 2;
+        let fwd = Reachability::reach_fwd(g, &t);
+        let bwd = Reachability::reach_bwd(g, &t);
+        if !fwd.is_subset(&bwd) {
+            problems.push(format!("witness {i} of the result of !{{x}}: AG EF {{x}} can reach a pair from which it cannot be reached again (not an attractor state)"));
+        }
+        let ctx: HashMap<String, GraphColoredVertices> = HashMap::from([("t".to_string(), t.clone())]);
+        match mc::model_check_extended_formula_dirty("!{x} in %t%: AG EF {x}", g, &ctx) {
+            Ok(r) if r == t => {}
+            Ok(r) => problems.push(format!("witness {i}: the generic evaluation `!{{x}} in %t%: AG EF {{x}}` gives {} pairs instead of the witness itself", r.approx_cardinality())),
+            Err(e) => problems.push(format!("witness {i}: generic evaluation fails: {e}")),
+        }
+        // the next witness comes from another attractor / colour
+        rest = rest.minus(&fwd).minus_colors(&t.colors());
+        if rest.is_empty() {
+            rest = att.minus(&fwd);
+        }
+    }
+    // (4) a witness outside
+    let outside = unit.minus(&att);
+    if !outside.is_empty() {
+        cases += 1;
+        let s = outside.pick_singleton();
+        let ctx: HashMap<String, GraphColoredVertices> = HashMap::from([("t".to_string(), s.clone())]);
+        match mc::model_check_extended_formula_dirty("!{x} in %t%: AG EF {x}", g, &ctx) {
+            Ok(r) if r.is_empty() => {}
+            Ok(_) => problems.push("a pair outside the result of !{x}: AG EF {x} is an attractor state by the generic evaluation restricted to it".into()),
+            Err(e) => problems.push(format!("generic evaluation fails: {e}")),
+        }
+    }
+    // (5) steady states: exactly the pairs whose only successor is themselves (no successor at all in the graph)
+    cases += 1;
+    match mc::model_check_formula_dirty("!{x}: AX {x}", g) {
+        Ok(fix) => {
+            let no_succ = unit.minus(&g.pre(&unit));
+            let _ = no_succ;
+            let can_move = g.variables().fold(g.mk_empty_colored_vertices(), |acc, v| acc.union(&g.var_can_post(v, &unit)));
+            if fix != unit.minus(&can_move) {
+                problems.push("the result of !{x}: AX {x} differs from the pairs in which no variable can change (library var_can_post)".into());
+            }
+            if !fix.is_subset(&att) {
+                problems.push("a steady state is missing from the result of !{x}: AG EF {x}".into());
+            }
+        }
+        Err(e) => problems.push(format!("steady-state formula: {e}")),
+    }
+    json!({"cases": cases, "variables": g.num_vars(), "attractor_pairs_log2": att.approx_cardinality().log2(), "problems": problems, "wall_s": t0.elapsed().as_secs_f64()})
 }
